@@ -75,9 +75,44 @@ class CallGraph:
             if f.cls is not None and f.parent is None:
                 self._name_index.setdefault(f.name, []).append(f)
         self.n_calls = self.n_resolved = self.n_external = self.n_imprecise = self.n_unresolved = 0
+        self.abstract = self._abstract_classes()
         for f in repo.funcs.values():
             self._scan(f)
         # module-level code (decorators etc.) is not a caller we need
+
+    def _abstract_classes(self) -> set[ClassInfo]:
+        """Rapid type analysis: a class with subclasses that is never constructed by name (K(...)), never returned by a
+        factory as `cls`, and never the target of a `__class__ =` promotion is treated as abstract: a virtual call does not
+        dispatch to a method *only* it would select."""
+        constructed: set[str] = set()
+        for m in self.repo.modules.values():
+            for n in ast.walk(m.tree):
+                if isinstance(n, ast.Call):
+                    d = _dotted(n.func)
+                    if d:
+                        ref = self.repo.resolve(m, d)
+                        if ref:
+                            constructed.add(self.repo.canonical(ref))
+                elif isinstance(n, ast.Assign) and any(isinstance(t, ast.Attribute) and t.attr == "__class__" for t in n.targets):
+                    d = _dotted(n.value)
+                    if d:
+                        ref = self.repo.resolve(m, d)
+                        if ref:
+                            constructed.add(self.repo.canonical(ref))
+                elif isinstance(n, (ast.Dict, ast.Tuple, ast.List, ast.Set)):
+                    # classes stored in tables (class registries) may be constructed reflectively
+                    for e in ast.walk(n):
+                        if isinstance(e, (ast.Name, ast.Attribute)):
+                            d = _dotted(e)
+                            if d:
+                                ref = self.repo.resolve(m, d)
+                                if ref and self.repo.canonical(ref) in self.repo.classes:
+                                    constructed.add(self.repo.canonical(ref))
+        out: set[ClassInfo] = set()
+        for ci in self.repo.classes.values():
+            if ci.subclasses and ci.fullname not in constructed:
+                out.add(ci)
+        return out
 
     # -- public ------------------------------------------------------------------
 
@@ -245,7 +280,8 @@ class CallGraph:
         out: list[FuncInfo] = []
         for ci in classes:
             cands = [ci] + (ci.all_subclasses() if virtual else [])
-            for c in cands:
+            concrete = [c for c in cands if c not in self.abstract] if virtual else cands
+            for c in concrete or cands:
                 m = c.find(name)
                 if m is not None and m not in out:
                     out.append(m)
